@@ -54,6 +54,12 @@ def gen_plan(rng, tier, idx, opts):
             pos += n
         elif r < 0.36:
             ops.append({"op": "get"})
+        elif r < 0.39 and L * nshape <= 16:
+            # a long run of tiny requests: what a streaming user does, and where per-call drift would accumulate
+            cnt = int(10 ** rng.uniform(2, 3.7))
+            nn = rng.choice([1, 1, 2, 3])
+            ops.append({"op": "burst", "count": cnt, "n": nn})
+            pos += cnt * nn
         else:
             if pos > 10 ** 6 and rng.random() < 0.6:
                 n = rng.randint(1, 3)          # small requests far out: where float time stepping is most fragile
@@ -129,6 +135,28 @@ def execute(plan):
                     if last is not None and (np.shape(s) != np.shape(last) or not np.array_equal(s, last)):
                         viol("value", step, "get_samples() changed without a new request")
                     log.add("get")
+                elif o == "burst":
+                    nn = op["n"]
+                    for b in range(op["count"]):
+                        gen.generate_more_samples(nn)
+                        if b % 16 == 0 or b >= op["count"] - 2:
+                            sb = gen.get_samples()
+                            if np.shape(sb) != base + (nn,):
+                                viol("shape", step, "request %d of a burst (n=%d) at position %d returned shape %s" % (b, nn, k, np.shape(sb)), small=True)
+                                break
+                            expb = model_samples(phi, psi, Fd, Ts, L, k, nn)
+                            errb = float(np.max(np.abs(np.asarray(sb) - expb)))
+                            if not (errb <= tol):
+                                viol("value", step, "request %d of a burst of %d requests of %d samples, position %d: |h - model| = %.3g > %.3g" % (
+                                    b, op["count"], nn, k, errb, tol), small=True, kind="burst")
+                                break
+                        k += nn
+                    if res["status"] != "ok":
+                        break
+                    gens += 1
+                    last = np.array(gen.get_samples(), copy=True)
+                    log.add("burst", op["count"], nn, k)
+                    bump(res["probes"], "burst_of_small_requests")
                 elif o == "generate":
                     n = op["n"]
                     nn = 1 if n is None else n
